@@ -150,12 +150,12 @@ class DataProvider:
         if interval_min > interval_max:
             interval_min, interval_max = interval_max, interval_min
 
-        minimum = 0 if np.isinf(interval_min) else np.abs(axis - interval_min).argmin()
-        maximum = (
-            axis.size if np.isinf(interval_max) else np.abs(axis - interval_max).argmin() + 1
-        )
+        def nearest_index(value: float) -> int:
+            if np.isinf(value):
+                return 0 if value < 0 else axis.size - 1
+            return np.abs(axis - value).argmin()
 
-        return slice(minimum, maximum)
+        return slice(nearest_index(interval_min), nearest_index(interval_max) + 1)
 
     def add_model_weight(
         self,
